@@ -3,15 +3,34 @@ different bytes / disagrees with its recorded size (C12, no-false-negative half;
 from harness.common import *  # noqa
 
 
-def _damage(what, kind, h0, s0, s1, s2, a, n):
+def _seeking_read(c, k):
+    """a reader that seeks from the end first (for a compressed object this goes through the re-loosened cache)"""
+    with c.get_object_stream(k) as s:
+        end = s.seek(0, 2)
+        s.seek(0)
+        data = s.read()
+        return end, data
+
+
+def _damage(what, kind, h0, s0, s1, s2, a, n, z2=False, both2=False, z=20):
+    """pack 0 = hole + obj1 + obj2 (obj2 compressed iff z2, with an additional loose copy iff both2); obj0 loose."""
     w = make_world(10**9)
     try:
-        w.set_pack(0, [('junk', 0, h0), ('obj', 1, s1), ('obj', 2, s2)])
+        w.set_zlen(2, s2, z)
+        w.set_pack(0, [('junk', 0, h0), ('obj', 1, s1), ('zobj' if z2 else 'obj', 2, s2)])
         w.put_loose(0, s0)
+        if both2:
+            w.put_loose(2, s2)
         objs = objs_map(w, [(0, s0), (1, s1), (2, s2)])
         k0, k1, k2 = w.key(0, s0), w.key(1, s1), w.key(2, s2)
         if kind == 0:  # loose file replaced by junk of length n
             w.damage_loose(k0, n)
+        elif kind == 6:  # the loose copy of the (also packed) obj2 replaced by junk of length n
+            w.damage_loose(k2, n)
+        elif kind == 7:  # `compressed` flag of obj2 flipped
+            w.set_row(k2, 'compressed', not z2)
+        elif kind == 8:  # pack_id of obj1 perturbed
+            w.update_row(k1, 'pack_id', a)
         elif kind == 1:
             w.update_row(k1, 'offset', a)
         elif kind == 2:
@@ -32,6 +51,9 @@ def _damage(what, kind, h0, s0, s1, s2, a, n):
                 meta = w.c.get_object_meta(k)
                 if meta['size'] != size:
                     bad = True
+                end, data = _seeking_read(w.c, k)
+                if end != size or not (data == w.content(i, size)):
+                    bad = True
             except Exception:
                 bad = True
         if what == 'reach':
@@ -42,6 +64,36 @@ def _damage(what, kind, h0, s0, s1, s2, a, n):
             return not w.c.validate().is_valid()
         except Exception:
             return True  # fails loudly
+    finally:
+        w.cleanup()
+
+
+def _damage_row2(h0, s0, s1, s2, a, field, z):
+    """perturbation of a row field of the COMPRESSED obj2 (kinds 1..3 act on obj1/obj2 uncompressed)"""
+    w = make_world(10**9)
+    try:
+        w.set_zlen(2, s2, z)
+        w.set_pack(0, [('junk', 0, h0), ('obj', 1, s1), ('zobj', 2, s2)])
+        w.put_loose(0, s0)
+        objs = objs_map(w, [(0, s0), (1, s1), (2, s2)])
+        k2 = w.key(2, s2)
+        w.update_row(k2, ('offset', 'length', 'size')[field], a)
+        bad = False
+        for k in objs:
+            i, size = objs[k]
+            try:
+                if not (w.c.get_object_content(k) == w.content(i, size)):
+                    bad = True
+                if w.c.get_object_meta(k)['size'] != size:
+                    bad = True
+            except Exception:
+                bad = True
+        if not bad:
+            return True
+        try:
+            return not w.c.validate().is_valid()
+        except Exception:
+            return True
     finally:
         w.cleanup()
 
@@ -109,3 +161,52 @@ def damage_reach(h0: int, s0: int, s1: int, s2: int, a: int, n: int) -> bool:
     post: _
     """
     return _damage('reach', 5, h0, s0, s1, s2, a, n)
+
+
+def damage_zloose(h0: int, s0: int, s1: int, s2: int, n: int, z2: bool, z: int) -> bool:
+    """
+    obj2 is packed (compressed iff z2) AND loose; its loose copy is replaced by junk of length n.
+    pre: 0 <= h0 <= 2 and 1 <= s0 <= 70000 and 1 <= s1 <= 70000 and 1 <= s2 <= 70000 and 2 <= z <= 70000
+    pre: 0 <= n <= s2 + 2
+    post: _
+    """
+    return _damage('check', 6, h0, s0, s1, s2, 0, n, z2, True, z)
+
+
+def damage_zflag(h0: int, s0: int, s1: int, s2: int, z2: bool, z: int) -> bool:
+    """
+    the `compressed` flag of obj2's row is flipped.
+    pre: 0 <= h0 <= 2 and 1 <= s0 <= 70000 and 1 <= s1 <= 70000 and 1 <= s2 <= 70000 and 2 <= z <= 70000
+    post: _
+    """
+    return _damage('check', 7, h0, s0, s1, s2, 0, 0, z2, False, z)
+
+
+def damage_zpack(h0: int, s0: int, s1: int, s2: int, a: int, n: int, z: int) -> bool:
+    """
+    a sub-range of the pack holding a compressed obj2 is flipped / the pack is truncated (n == 0).
+    pre: 0 <= h0 <= 2 and 1 <= s0 <= 70000 and 1 <= s1 <= 70000 and 1 <= s2 <= 70000 and 2 <= z <= 70000
+    pre: 0 <= a and 0 <= n and a + n <= h0 + s1 + z and a < h0 + s1 + z
+    post: _
+    """
+    return _damage('check', 5 if n > 0 else 4, h0, s0, s1, s2, a, n, True, False, z)
+
+
+def damage_zrow(h0: int, s0: int, s1: int, s2: int, a: int, field: int, z: int) -> bool:
+    """
+    offset / length / size of the row of a compressed obj2 perturbed by a.
+    pre: 0 <= h0 <= 2 and 1 <= s0 <= 70000 and 1 <= s1 <= 70000 and 1 <= s2 <= 70000 and 2 <= z <= 70000
+    pre: -70003 <= a <= 70003 and a != 0 and 0 <= field <= 2
+    post: _
+    """
+    return _damage_row2(h0, s0, s1, s2, a, field, z)
+
+
+def damage_packid(h0: int, s0: int, s1: int, s2: int, a: int) -> bool:
+    """
+    pack_id of obj1's row perturbed.
+    pre: 0 <= h0 <= 2 and 1 <= s0 <= 70000 and 1 <= s1 <= 70000 and 1 <= s2 <= 70000
+    pre: 1 <= a <= 3
+    post: _
+    """
+    return _damage('check', 8, h0, s0, s1, s2, a, 0)
